@@ -55,5 +55,5 @@ def run(ctx):
     for r0 in vf.split_runs(vf.read_ndjson(t2))[:2]:
         ctx.sample(r0)
     # socket-level tier: the real binary, every command's RunE wiring, chunking (>200 ranges), file and stdin targets, loopback application scans
-    n3, rej = wt.run_wire(ctx, select=lambda s: s["expect"]["kind"] in ("packet", "app", "apphttp"), label="c01w", focus="coverage")
+    n3, rej = wt.run_wire(ctx, select=lambda s: s["expect"]["kind"] in ("packet", "packetbusy", "app", "apphttp"), label="c01w", focus="coverage")
     wt.report(ctx, "C01", rej)
